@@ -1,15 +1,9 @@
 #!/bin/sh
-# usage: tools/seedcheck.sh seeded/<id> — apply the seeded change to /repo, run every check, undo it.
+# usage: tools/seedcheck.sh seeded/<id> — apply the seeded change to /repo, run every property's rules, undo it.
 D=$(readlink -f "$1")
 cd /repo || exit 2
 [ -n "$(git status --porcelain --untracked-files=no)" ] && { echo "/repo is not clean"; exit 2; }
 git apply "$D/patch.diff" || { echo "patch does not apply"; exit 2; }
 cd /verif
-OUT=""
-for q in C01 C02 C03 C04 C05 C06 C07 C08 C09 C10 C11 C12 C13 C14 C15 C16 C17 C18 C19 C20; do
-  R=$(GV_EVIDENCE_DIR=/tmp/gv-seed-evidence ./check $q 2>/dev/null | grep -A2 "^VIOLATION" | grep "^  rule" | awk '{print $2}' | sort -u | tr '\n' ' ')
-  [ -n "$R" ] && OUT="$OUT $q:[$R]"
-done
+python3 tools/fastcheck.py
 git -C /repo checkout -- .
-rm -rf /tmp/gv-seed-evidence
-echo "caught-by:$OUT"
